@@ -114,6 +114,26 @@ Theorem C10_conc_spacing : forall c bs sched,
   c_last s = last_pass last0 (grants_of (c_log s)).
 Proof. intros c bs sched. exact (conc_spacing (early_block c) (interval c) (maxq_ns c) bs sched). Qed.
 
+(* ... and over ANY window of ANY schedule: a contiguous run `mid` of successful CASes after
+   the grant g takes at least the sum of its intervals; with a uniform batch b, at most
+   span/interval(b) callers are admitted within a span, however the callers interleave *)
+Theorem C10_conc_window_rate : forall c bs sched pre g mid post b,
+  grants_of (c_log (cexec_c c sched (cinit bs))) = pre ++ g :: mid ++ post ->
+  Forall (fun h => g_b h = b) mid ->
+  last_pass (g_pass g) mid - g_pass g >= sum_iv (interval c) mid /\
+  interval c b * Z.of_nat (length mid) <= last_pass (g_pass g) mid - g_pass g.
+Proof.
+  intros c bs sched pre g mid post b He Hf.
+  pose proof (proj1 (conc_spacing (early_block c) (interval c) (maxq_ns c) bs sched)) as Hs.
+  cbv zeta in Hs. unfold cexec_c in He. rewrite He in Hs.
+  pose proof (spaced_window (early_block c) (interval c) (maxq_ns c) last0 pre g mid post Hs) as Hw.
+  split; [exact Hw|].
+  assert (Hc : interval c b * Z.of_nat (length mid) <= sum_iv (interval c) mid).
+  { apply (sum_iv_ge_count (early_block c) (interval c) (interval c b) mid).
+    eapply Forall_impl; [|exact Hf]. cbn beta. intros h ->. lia. }
+  lia.
+Qed.
+
 (* no admitted caller is asked to wait longer than the limit (no hypothesis on the limit) *)
 Theorem C10_conc_wait_bound : forall c bs sched,
   Forall (fun o => match o with Some (OPass w) => 0 <= w <= maxq_ns c | _ => True end)
@@ -243,6 +263,7 @@ Print Assumptions C10_window_total.
 Print Assumptions C10_window_rate.
 Print Assumptions C10_zero_batch_inert.
 Print Assumptions C10_conc_spacing.
+Print Assumptions C10_conc_window_rate.
 Print Assumptions C10_conc_wait_bound.
 Print Assumptions C10_conc_no_banking.
 Print Assumptions C10_conc_grant_exact.
